@@ -255,7 +255,7 @@ func headerString(f *Func) string {
 		fmt.Fprintf(buf, " %s", f.AddrSpace)
 	}
 	for _, attr := range f.FuncAttrs {
-		fmt.Fprintf(buf, " %s", attr)
+		fmt.Fprintf(buf, " %s", funcAttrString(attr))
 	}
 	if len(f.Section) > 0 {
 		fmt.Fprintf(buf, " section %s", quote(f.Section))
